@@ -52,7 +52,9 @@ def main():
         ),
         engines=[dict(name="pbt-runner", path="/verif/harness/runner.py",
                       serves_properties=[c["property_id"] for c in checks],
-                      kind_free_text="Hypothesis-driven generated-input search (seeded from VERIF_SEED, sharded over processes) plus enumerated finite cores, each case decided by an explicit oracle (exact rational reference solver, abstract rule model, differential or metamorphic relation, invariant); collect-then-shrink; replay files bypass Hypothesis")],
+                      kind_free_text="Hypothesis-driven generated-input search (seeded from VERIF_SEED, sharded over processes; op-list and RuleBasedStateMachine generation for histories) plus enumerated finite cores, each case decided by an explicit oracle (exact rational reference solver, abstract rule model, differential or metamorphic relation, invariant); collect-then-shrink; replay files bypass Hypothesis"),
+                 dict(name="atheris-fuzz-stage", path="/verif/harness/fuzzstage.py", serves_properties=["C07", "C09"],
+                      kind_free_text="coverage-guided fuzzing (atheris / libFuzzer under python3-vt) of fuzz/fuzz_revdfs.py and fuzz/fuzz_validate.py with the semantic oracle inside the target; crashing inputs are decoded into plain cases and decided by the property's own check_case; run as an extra stage of ./check C07 and ./check C09")],
         checks=checks,
         notes="All checks import the repository fresh from /repo's working tree (VERIF_REPO overrides). Exit 0 = held, 1 = VIOLATION line printed, 2 = harness error / inconclusive. Known findings: /verif/known_findings.json. Repository fix commits so far:\n" + "".join("  " + l + "\n" for l in fixes.splitlines() if " fix:" in l),
         not_applicable=na,
